@@ -167,3 +167,53 @@ Proof.
   split; [vm_compute; reflexivity|]. split; [vm_compute; reflexivity|]. split; [vm_compute; reflexivity|].
   exists [99]. split; [right; left; reflexivity|reflexivity].
 Qed.
+
+(* ---- the model is the code: generated-model equivalence (tools/go2coq, Gen/Code.v, C09/GenEquiv.v) ------
+   GC.f is the Gallina definition that tools/go2coq generates from the Go source of f on every run
+   (internal/murmur/murmur.go and murmur_unsafe.go).  Each theorem says that the generated definition and the
+   hand-written model function of Model.v are the same function, for all arguments a Go program can pass. *)
+From GocqlV Require Import Gen.Code.
+From GocqlV Require C09.GenEquiv.   (* not imported: its helper lemmas stay qualified *)
+
+(* rotl: every int64 x and every rotation amount a 64-bit rotation can take (the code passes 27, 31, 33). *)
+Theorem C09_generated_rotl_is_model : forall x r, 0 <= r <= 64 -> GC.rotl x r = rotl x r.
+Proof. exact C09.GenEquiv.gen_rotl_eq. Qed.
+Print Assumptions C09_generated_rotl_is_model.
+
+Theorem C09_generated_fmix_is_model : forall n, GC.fmix n = fmix n.
+Proof. exact C09.GenEquiv.gen_fmix_eq. Qed.
+Print Assumptions C09_generated_fmix_is_model.
+
+(* block: int64(int8(p)) for every byte p *)
+Theorem C09_generated_block_is_model : forall p, is_byte p -> GC.block p = block p.
+Proof. exact C09.GenEquiv.gen_block_eq. Qed.
+Print Assumptions C09_generated_block_is_model.
+
+(* getBlock (murmur_unsafe.go, the pointer cast read as two little-endian int64 loads: amd64): every block
+   index whose byte offset fits in an int *)
+Theorem C09_generated_getBlock_is_model : forall data n, Z.of_nat n * 16 < 2 ^ 63 ->
+  GC.getBlock data (Z.of_nat n) = get_block data n.
+Proof. exact C09.GenEquiv.gen_getBlock_eq. Qed.
+Print Assumptions C09_generated_getBlock_is_model.
+
+(* Murmur3H1: every byte string whose length is a Go int - any number of 16-byte blocks (induction over the
+   block loop), each of the 16 tail lengths of the fall-through switch. *)
+Theorem C09_generated_murmur_is_model : forall key, wf_bytes key -> Z.of_nat (length key) < 2 ^ 63 ->
+  GC.Murmur3H1 key = murmur3_h1 key.
+Proof. exact C09.GenEquiv.gen_murmur3_h1_eq. Qed.
+Print Assumptions C09_generated_murmur_is_model.
+
+(* ... hence the function go2coq reads off murmur.go today is Cassandra's hash3_x64_128 h1. *)
+Theorem C09_generated_murmur_eq_cassandra : forall key, wf_bytes key -> Z.of_nat (length key) < 2 ^ 63 ->
+  GC.Murmur3H1 key = cassandra_h1 key.
+Proof.
+  intros key Hwf Hlen. rewrite (C09.GenEquiv.gen_murmur3_h1_eq key Hwf Hlen). exact (murmur_go_eq_cassandra_lemma key Hwf).
+Qed.
+Print Assumptions C09_generated_murmur_eq_cassandra.
+
+(* non-vacuity / sanity: the generated definition evaluates (vm_compute) to the Java-generated vector of
+   murmur_test.go on a key with one block and a tail with high-bit bytes *)
+Example C09_generated_murmur_evaluates :
+  let key := [104; 101; 108; 108; 111; 200; 255; 128; 1; 2; 3; 4; 5; 6; 7; 8; 9; 10; 11; 250] in
+  wf_bytes key /\ Z.of_nat (length key) < 2 ^ 63 /\ GC.Murmur3H1 key = cassandra_h1 key.
+Proof. cbv zeta. split; [apply wf_bytesb_spec; reflexivity|]. split; [reflexivity|vm_compute; reflexivity]. Qed.
